@@ -74,11 +74,23 @@ func Main(kind string) {
 		fmt.Println("HARNESS-ERROR cannot find own executable:", err)
 		os.Exit(2)
 	}
+	if kind == "c26" && !RaceEnabled && cfg.Mode == "replay" {
+		// ./check C26 --replay builds the plain binary; a race can only be replayed by the -race build next to it
+		if _, e := os.Stat(exe + "-race"); e == nil {
+			exe = exe + "-race"
+		}
+	}
+	// pseudo case: the generated tables themselves (violating rows are reported by the model driver as
+	// case=table; replaying it re-evaluates the tables of the current tree)
+	tr.Case("table", false, "tables", "-")
 	tmp, _ := os.MkdirTemp("", "lockstress-")
 	defer os.RemoveAll(tmp)
 	nviol := 0
 	for _, sp := range specs {
 		id, spec := sp[0], sp[1]
+		if spec == "tables" {
+			continue
+		}
 		obs := runCaseInChild(exe, kind, id, spec, tmp)
 		tr.Count(strings.Fields(spec)[0] + ":" + strings.Fields(obs)[0])
 		tr.Case(id, true, spec, obs)
